@@ -543,7 +543,9 @@ def check_bytes_cursor(out, facts):
         ok = ok and sym.vstr(seq[4][1]) == cnt
         ok = ok and sym.vstr(seq[1][3][1]) == ('take(self.position)' if taken else 'self.position') and sym.vstr(seq[2][2]) == '0:usize' and is_self_field(seq[2][1], 'position')
         alts = [x for x in sym.walk(t) if x[0] == 'alt']
-        ok = ok and len(alts) == 1 and sym.vstr(alts[0][1][1]) == '(%s Gt len(self.bytes))' % cnt
+        nc = norm_cmp(alts[0][1][1]) if len(alts) == 1 and isinstance(alts[0][1], tuple) and alts[0][1][0] == 'if' else None
+        ok = ok and bool(nc) and nc[0] == 'Gt' and sym.vstr(nc[1]) == cnt and sym.vstr(nc[2]) == 'len(self.bytes)' and \
+            [d for d, x in alts[0][2] if any(e[0] == 'ERR' for e in events(x))] == ['true']
         why = 'count/guard/hook/split arguments disagree: ' + sym.tstr(t)[:300]
     out.ob('R08.4', 'BytesCursor::scale_internal_decode_bytes [%s]' % cfg, ok, why, f['loc'], sample={'term': sym.tstr(t)})
     d = facts.trait_default('Input', 'scale_internal_decode_bytes')
